@@ -676,6 +676,7 @@ MergeText(ns) ==
 C18Sane(c) == LET a == c.runs[1]  b == c.runs[2] IN
               MergeText(Dom1(c, b)) = MergeText(DeleteHidden(Dom1(c, a), CssOf(c, a)))
 P_C18(c) ==
+  Len(c.runs) < 2 \/
   /\ C18Sane(c)
   /\ SameResult(c.runs[1], c.runs[2])
   /\ Len(c.runs) >= 4 => SameResult(c.runs[3], c.runs[4])
